@@ -18,7 +18,7 @@ struct EcSession {
         {
                 int k = 1 + (int) ((uint64_t) plan.geti("k") % 32);
                 int rows = 1 + (int) ((uint64_t) plan.geti("rows") % 14);
-                int len = (int) ((uint64_t) plan.geti("len") % 9000);
+                int len = (int) ((uint64_t) plan.geti("len") % 140000);
                 int apply = (int) ((uint64_t) plan.geti("apply") % 3); // 0 ec_encode_data_update, 1 gf_vect_mad per row, 2 mixed
                 if (apply && len < 64)
                         apply = 0; // gf_vect_mad documents len >= 64
@@ -241,6 +241,11 @@ static Json gen_ec(Rng &r0, const std::string &focus, int tier)
         int k = (int) r.below(32);
         static const int lens[] = { 0, 1, 15, 16, 17, 31, 32, 33, 63, 64, 65, 95, 127, 128, 129, 191, 255, 256, 257, 511, 512, 513, 1000, 4096, 4097 };
         p.set("k", k).set("rows", (int) r.below(14)).set("len", r.chance(1, 2) ? r.pick(lens) : (int) r.logsize(8999)).set("apply", (int) r.below(3)).set("matrix", (int) r.below(3)).set("s", r.u64() >> 16).set("srcshape", r.chance(1, 2) ? 0 : (int) (1 + r.below(3))).set("toff", r.chance(2, 3) ? 0 : (int) (r.chance(1, 2) ? 8 * (1 + r.below(3)) : 1 + r.below(31)));
+        if (r.chance(1, 20)) { // block lengths around and beyond 2^16 and 2^17 (16-bit counters, unrolled-loop remainders far from the start); few sources
+                static const int longs[] = { 65535, 65536, 65537, 65599, 65600, 70000, 98304, 131071, 131072, 131073 };
+                k = (int) r.below(7);
+                p.set("k", k).set("len", r.chance(1, 2) ? r.pick(longs) : (int) (65536 + r.below(70000)));
+        }
         // delivery order: a permutation of the sources with duplicate pairs injected
         std::vector<int> order;
         for (int i = 0; i <= k; i++)
